@@ -151,25 +151,14 @@ macro_rules! __call_iter_methods {
             (($($rem_vars)*) $($rem_fixed)*)
             (($($rem_vars)*) $($rem_fixed)*)
             $item
-            (
-                // checked before the next item is produced,
-                // so that the methods before `take` don't run on an item that is never yielded
-                (
-                    {}
-                    if $var == 0 {
-                        $crate::__cim_break!{$fixed}
-                    }
-                )
-                $($iters)*
-                (
-                    {}
-                    if $var == 0 {
-                        $crate::__cim_break!{$fixed}
-                    } else {
-                        $var -= 1;
-                    }
-                )
-            )
+            ( $($iters)* (
+                {}
+                if $var == 0 {
+                    $crate::__cim_break!{$fixed}
+                } else {
+                    $var -= 1;
+                }
+            ))
             $($rem)*
         }
     );
@@ -484,6 +473,39 @@ macro_rules! __cim_break {
     };
 }
 
+// Emitted at the top of every loop, before the next item is produced:
+// breaks out of the iteration once any of the `take`s in the remaining methods has nothing left to take,
+// so that the methods before that `take` don't run on an item that is never yielded.
+//
+// This walks the remaining methods alongside the variables
+// that `__cim_preprocess_methods` allocated for them.
+#[doc(hidden)]
+#[macro_export]
+macro_rules! __cim_take_guard {
+    ($fixed:tt ($var:ident $($vars:ident)*) take $args:tt, $($rem:tt)*) => {
+        if $var == 0 {
+            $crate::__cim_break!{$fixed}
+        }
+        $crate::__cim_take_guard!{$fixed ($($vars)*) $($rem)*}
+    };
+    ($fixed:tt ($var:ident $($vars:ident)*) zip $args:tt, $($rem:tt)*) => {
+        $crate::__cim_take_guard!{$fixed ($($vars)*) $($rem)*}
+    };
+    ($fixed:tt ($var:ident $($vars:ident)*) enumerate $args:tt, $($rem:tt)*) => {
+        $crate::__cim_take_guard!{$fixed ($($vars)*) $($rem)*}
+    };
+    ($fixed:tt ($var:ident $($vars:ident)*) skip $args:tt, $($rem:tt)*) => {
+        $crate::__cim_take_guard!{$fixed ($($vars)*) $($rem)*}
+    };
+    ($fixed:tt ($var:ident $($vars:ident)*) skip_while $args:tt, $($rem:tt)*) => {
+        $crate::__cim_take_guard!{$fixed ($($vars)*) $($rem)*}
+    };
+    ($fixed:tt $vars:tt $method:ident $args:tt, $($rem:tt)*) => {
+        $crate::__cim_take_guard!{$fixed $vars $($rem)*}
+    };
+    ($fixed:tt $vars:tt $($rem:tt)*) => {};
+}
+
 #[doc(hidden)]
 #[macro_export]
 macro_rules! __cim_flat_map {
@@ -511,6 +533,11 @@ macro_rules! __cim_flat_map {
                         iter = $crate::into_iter_macro!(
                             $crate::__annotate_type!{$($ret_ty)? => $v}
                         )
+                    }
+                    $crate::__cim_take_guard!{
+                        ($vars $macro $prev_args ($break_label) $next_fn $allowed_methods)
+                        $vars
+                        $($rem)*
                     }
                     let $item = if let $crate::__::Some((elem_, next_)) = iter.$next_fn() {
                         iter = next_;
